@@ -90,10 +90,23 @@ def bump (bs : List (String × Nat)) (b : String) : List (String × Nat) :=
   | some _ => bs.map fun (k, n) => if k == b then (k, n + 1) else (k, n)
   | none => bs ++ [(b, 1)]
 
+/-- `kmap=<hexpath>:<wd>,…`: what inotify_add_watch answers per path (recursive stages) -/
+def parseKmap (s : String) : List (List Nat × Nat) :=
+  if s == "-" || s == "" then [] else
+  (s.splitOn ",").filterMap fun e =>
+    match e.splitOn ":" with
+    | [p, wd] => some (unhex p, natOf wd)
+    | _ => none
+
 def mkEnv (args : List String) : Env :=
   let res := kv args "k"
-  { addWatch := fun _ _ =>
-      if res.startsWith "wd:" then .ok (natOf (res.drop 3).toString) else .error ((res.drop 4).toString),
+  let km := parseKmap (kv args "kmap")
+  { addWatch := fun p _ =>
+      if res != "-" then
+        (if res.startsWith "wd:" then .ok (natOf (res.drop 3).toString) else .error ((res.drop 4).toString))
+      else match km.find? (fun e => e.1 == p) with
+        | some e => .ok e.2
+        | none => .error "ENOENT",
     marks := csvNats (kv args "marks") }
 
 def step (st : DState) (line : String) : DState × String :=
@@ -103,6 +116,13 @@ def step (st : DState) (line : String) : DState × String :=
   | "add" :: p :: ops :: nf :: args =>
     let (l, _, o) := st.lib.add (mkEnv args) (unhex p) (bv32 ops) (nf == "1")
     ({ st with lib := l }, s!"{outStr o} | {stateStr l}")
+  | "addrec" :: p :: ops :: args =>
+    let walkS := kv args "walk"
+    if walkS == "notdir" then (st, s!"R notDir | E  | X  | {stateStr st.lib}")
+    else
+      let walk := if walkS == "-" then [] else (walkS.splitOn ",").map unhex
+      let (l, _, o) := st.lib.addRecWalk (mkEnv args) (inotifyRequest false (bv32 ops)) walk
+      ({ st with lib := l }, s!"{outStr o} | {stateStr l}")
   | "remove" :: p :: args =>
     let (l, _, o) := st.lib.remove (mkEnv args) (clean (unhex p))
     ({ st with lib := l }, s!"{outStr o} | {stateStr l}")
